@@ -56,6 +56,8 @@ def generate(seed, index, tier):
     rng = scenarios.derive_rng(seed, ID, index)
     if index % 4 == 0:
         return gen_app_label(rng)
+    if index % 16 == 5:
+        return gen_pk_rename(rng)
     cfg = gen.swarm_config(rng)
     cfg['relations'] = True
     cfg['m2m'] = rng.random() < 0.5
@@ -124,6 +126,127 @@ def gen_app_label(rng):
     return {'kind': 'app_label', 'project': project, 'rows': rows}
 
 
+def gen_pk_rename(rng):
+    """A primary key that other models (same app and another app) point at
+    is renamed; afterwards the referencing tables are rebuilt by unrelated
+    changes, in the same run or a later one."""
+    intf = lambda n: {'name': n, 'kind': 'Integer', 'attrs': {'null': True}}
+    char = lambda n, l: {'name': n, 'kind': 'Char', 'attrs': {'max_length': l}}
+    fk = lambda n, to: {'name': n, 'kind': rng.choice(
+        ['ForeignKey', 'ForeignKey', 'OneToOne']), 'attrs': {'null': True},
+        'to': to}
+    author0 = {'name': 'Author', 'fields': [char('name', 20)], 'meta': {}}
+    book0 = {'name': 'Book', 'fields': [fk('author', 'va.Author'),
+                                        char('title', 20)], 'meta': {}}
+    # declaration order decides the order of the rebuilds in one run
+    va0 = [author0, book0] if rng.random() < 0.5 else [book0, author0]
+    keep_column = rng.random() < 0.3
+    pk = {'name': 'author_id', 'kind': 'Auto', 'attrs': {'primary_key': True}}
+    ren = {'op': 'RenameField', 'model': 'Author', 'old': 'id',
+           'new': 'author_id'}
+    if keep_column:
+        pk['attrs']['db_column'] = 'id'
+        ren['db_column'] = 'id'
+    va1 = copy.deepcopy(va0)
+    a1 = [m for m in va1 if m['name'] == 'Author'][0]
+    a1['fields'].insert(0, pk)
+    va2 = copy.deepcopy(va1)
+    b2 = [m for m in va2 if m['name'] == 'Book'][0]
+    if rng.random() < 0.5:
+        b2['fields'][1]['attrs']['max_length'] = 50
+        m2 = {'op': 'ChangeField', 'model': 'Book', 'name': 'title',
+              'attrs': {'max_length': 50}}
+    else:
+        b2['fields'].append(intf('pages'))
+        m2 = {'op': 'AddField', 'model': 'Book', 'field': intf('pages')}
+    project = {'apps': {'va': {'v0': va0, 'steps': [
+        {'evos': [{'label': 'rename_pk', 'mutations': [ren]}],
+         'target': va1},
+        {'evos': [{'label': 'touch_book', 'mutations': [m2]}],
+         'target': va2}]}},
+        'order': ['va'], 'databases': ['default']}
+    rows = {'va_author': [{'id': 1, 'name': 'x'}, {'id': 2, 'name': 'y'}],
+            'va_book': [{'id': 1, 'author_id': 2, 'title': 't'}]}
+    if rng.random() < 0.6:
+        l0 = {'name': 'Listing', 'fields': [fk('seller', 'va.Author'),
+                                            intf('price')], 'meta': {}}
+        l2 = copy.deepcopy(l0)
+        l2['fields'].append(intf('note'))
+        project['apps']['vb'] = {'v0': [l0], 'steps': [
+            {'evos': []},
+            {'evos': [{'label': 'touch_listing', 'mutations': [
+                {'op': 'AddField', 'model': 'Listing',
+                 'field': intf('note')}]}], 'target': [l2]}]}
+        project['order'] = rng.choice([['va', 'vb'], ['vb', 'va']])
+        rows['vb_listing'] = [{'id': 1, 'seller_id': 1, 'price': None}]
+    return {'kind': 'pk_rename', 'project': project, 'rows': rows,
+            'path': rng.choice(['stepwise', 'direct']),
+            'keep_column': keep_column}
+
+
+def _exec_pk_rename(scn):
+    P = scn['project']
+    sts = proj.states(P)
+    stats, viols = {'kind_pk_rename': 1}, []
+    detail = dict(kind='pk_rename', path=scn['path'],
+                  keep_column=scn['keep_column'], order=P['order'],
+                  ops=['RenameField:pk'], ops_str='RenameField:pk',
+                  model_name_reuse=False, renamed_name_in_other_app=False)
+    res = {'violations': viols, 'stats': stats, 'nontrivial': True,
+           'shape': spec.canon(['pk_rename', scn['path'], P['order'],
+                                scn['keep_column'],
+                                [m['name'] for m in P['apps']['va']['v0']],
+                                [f['kind'] for a in sorted(P['apps'])
+                                 for m in P['apps'][a]['v0']
+                                 for f in m['fields']]]), 'runs': 0}
+    with runner.Workspace() as ws:
+        r0 = common.install(ws, P, sts, 0, scn['rows'])
+        if r0.status != 'ok' or getattr(r0, 'rows_rejected', None):
+            raise runner.HarnessError('pk_rename install: %s %s' % (
+                r0.status, getattr(r0, 'rows_rejected', None)))
+        for v in ([1, 2] if scn['path'] == 'stepwise' else [2]):
+            proj.deploy(ws, P, v, sts, clean=True)
+            r = ws.run('evolve', {'execute': True})
+            if r.status != 'ok':
+                viols.append(violation(
+                    'C11.valid_rename_rejected', version=v,
+                    out=(r.stdout() + r.stderr() + str(
+                        (r.exit or {}).get('msg')))[-400:], **detail))
+                res['runs'] = ws.nruns
+                return res
+        post = snapshot.snapshot(ws)
+        res['runs'] = ws.nruns
+    for t, ts in post['tables'].items():
+        for (col, rt, rc) in ts['fks']:
+            if rt not in post['tables']:
+                viols.append(violation('C11.fk_target_missing', table=t,
+                                       column=col, target=rt, **detail))
+            elif rc not in post['tables'][rt]['columns']:
+                viols.append(violation('C11.fk_target_missing', table=t,
+                                       column=col, target=rt,
+                                       target_column=rc, **detail))
+    if post['fk_check']:
+        viols.append(violation('C11.fk_check', rows=[
+            list(map(str, x)) for x in post['fk_check'][:4]], **detail))
+    fresh, _ = common.fresh_snapshot(P, sts, 2)
+    res['runs'] += 1
+    for dd in common.schema_diffs(post, fresh, sts[2], sorted(sts[2]['apps'])):
+        if dd['kind'].startswith('fk') or dd['kind'].startswith('column'):
+            viols.append(violation('C11.fk_target_missing', table=dd['table'],
+                                   diff_kind=dd['kind'],
+                                   what=[str(x) for x in dd['what']],
+                                   **detail))
+    # rows still point at their parents
+    want = {'va_book': [2]}
+    for t, vals in want.items():
+        got = [r for r in post['tables'].get(t, {}).get('rows', [])]
+        if len(got) != 1:
+            viols.append(violation('C11.fk_check', table=t,
+                                   rows_now=len(got), **detail))
+    res['sample'] = dict(detail)
+    return res
+
+
 def relation_topology(state):
     out = []
     for a in sorted(state['apps']):
@@ -136,6 +259,8 @@ def relation_topology(state):
 
 
 def execute(scn):
+    if scn['kind'] == 'pk_rename':
+        return _exec_pk_rename(scn)
     P = scn['project']
     sts = proj.states(P)
     stats, viols = {}, []
